@@ -170,12 +170,17 @@ def build_emitter(archive, e, case, seqs):
     if t == "ga":
         okw = {"sigma": 0.2, "seed": seed} if e["op"] == "gaussian" else {"iso_sigma": 0.05, "line_sigma": 0.3, "seed": seed}
         return GeneticAlgorithmEmitter(archive, operator=e["op"], operator_kwargs=okw, batch_size=e["batch"], bounds=bounds, **start)
+    rk_arg = e.get("ranker")
+    if e.get("ranker_as_class") and rk_arg is not None:
+        # the documented alternative to a ranker name: the class itself (a callable); it must get the emitter's seed just the same
+        from ribs.emitters import rankers as _R
+        rk_arg = _R._NAME_TO_RANKER_MAP[rk_arg]
     if t == "es":
-        return EvolutionStrategyEmitter(archive, x0=x0, sigma0=e.get("sigma", 0.3), ranker=e["ranker"], es=e["es"], es_kwargs=e.get("es_kwargs"),
+        return EvolutionStrategyEmitter(archive, x0=x0, sigma0=e.get("sigma", 0.3), ranker=rk_arg, es=e["es"], es_kwargs=e.get("es_kwargs"),
                                         selection_rule=e.get("sel", "filter"), restart_rule=e.get("restart", "no_improvement"), bounds=bounds,
                                         batch_size=e["batch"], seed=seed)
     if t == "gae":
-        return GradientArborescenceEmitter(archive, x0=x0, sigma0=e.get("sigma", 0.3), lr=0.05, ranker=e["ranker"], es=e["es"],
+        return GradientArborescenceEmitter(archive, x0=x0, sigma0=e.get("sigma", 0.3), lr=0.05, ranker=rk_arg, es=e["es"],
                                            es_kwargs=e.get("es_kwargs"), grad_opt=e.get("grad_opt", "adam"), restart_rule=e.get("restart", "no_improvement"),
                                            selection_rule=e.get("sel", "filter"), batch_size=e["batch"], seed=seed)
     if t == "gradop":
@@ -901,6 +906,7 @@ def gen_emitter(rng, d, arch, t=None, es=None, ranker=None, allow_dqd=True, seqs
         e["es"] = es or rng.choice(ES_NAMES if _has_cma() else ES_NAMES[:4])
         rk = rankers_for(arch)
         e["ranker"] = ranker if (ranker in rk) else rng.choice(rk)
+        e["ranker_as_class"] = rng.random() < 0.3
         if e["es"] == "lm_ma_es":
             e["batch"] = min(e["batch"], d if t == "es" else MDIM + 1)
         if e["es"] == "openai_es":
